@@ -288,10 +288,11 @@ def run(ctx):
     for n in ast.walk(inv.node):
         if isinstance(n, ast.ExceptHandler) and n.type is not None and norm(n.type) == "CklRuntimeError" and n.name:
             body = n.body
-            if len(body) == 2 and isinstance(body[1], ast.Raise) and body[1].exc is None:
-                t = norm(body[0])
-                if t.startswith(f"{n.name}.stacktrace.append(") and "str(pos)" in t:
-                    ok = True
+            if body and isinstance(body[-1], ast.Raise) and body[-1].exc is None:
+                for st_ in body[:-1]:
+                    t = norm(st_)
+                    if t.startswith(f"{n.name}.stacktrace.append(") and "str(pos)" in t:
+                        ok = True
     ctx.check("C20.trace", inv, None, ok,
               "invoke() no longer appends the call position to the stack trace before re-raising",
               expr="invoke handler", site="invoke: except CklRuntimeError as e: e.stacktrace.append(.. str(pos)); raise")
